@@ -16,12 +16,12 @@ import (
 
 func init() {
 	register(&Property{
-		ID: "C13",
-		Decides: "a single-goroutine Go program is deterministic unless it observes map iteration order, scheduling, clocks/randomness/OS state, or address-derived values; for every function of the six library packages: no range over a map whose body is order-sensitive (R1), no goroutines, channels, select, finalizers, clocks, random sources, OS state, sync.Pool or maphash (R2), no pointer converted to an integer and no pointer formatted (R3). A fixture with known-bad and known-good examples is analysed on every run.",
+		ID:          "C13",
+		Decides:     "a single-goroutine Go program is deterministic unless it observes map iteration order, scheduling, clocks/randomness/OS state, or address-derived values; for every function of the six library packages: no range over a map whose body is order-sensitive (R1), no goroutines, channels, select, finalizers, clocks, random sources, OS state, sync.Pool or maphash (R2), no pointer converted to an integer and no pointer formatted (R3). A fixture with known-bad and known-good examples is analysed on every run.",
 		NotDecided:  "that the (deterministic) algorithms produce the documented results; memory safety (a read past an array would be nondeterministic) — assumed.",
 		Assumptions: append([]string{"memory safety of the unsafe accesses (C01/C16 rules cover the capacity chain only)", "reflect and fmt are deterministic for the values passed (types, integers, strings)"}, commonAssumptions...),
 		Rules: []Rule{
-			{ID: "C13.R1", Floor: 1, Run: c13r1, Text: "no order-dependent map iteration: a range over a map is allowed only if the loop body is order-insensitive by form (only delete, commutative accumulation into locals, keyed writes into another map, or collecting keys that are sorted before use)"},
+			{ID: "C13.R1", Floor: 1, Run: c13r1, Text: "no order-dependent map iteration: a range over a map is allowed only if the loop body is order-insensitive by form (only delete, commutative accumulation into locals, keyed writes into another map, or collecting keys that are sorted before use); the same for callbacks handed to package maps (DeleteFunc …), and maps.Keys/Values/All only as the direct argument of a sorting collector"},
 			{ID: "C13.R2", Floor: 1, Run: c13r2, Text: "no nondeterminism sources: go statements, channel operations, select, runtime.SetFinalizer, time, math/rand, crypto/rand, os, sync.Pool, hash/maphash callees (resolved callees, not names)"},
 			{ID: "C13.R3", Floor: 1, Run: c13r3, Text: "no address-derived values: no conversion unsafe.Pointer → uintptr, no pointer/map/chan/func value passed to a fmt formatting function"},
 			{ID: "C13.R4", Floor: 1, Run: c16r7, Text: "layout extension covers every table of every node, active or not (= C16.R7): a skipped table reads past its layout array, which makes results depend on heap contents"},
@@ -31,8 +31,8 @@ func init() {
 		},
 	})
 	register(&Property{
-		ID: "C19",
-		Decides: "all state hangs off World: every package-level variable of the six packages has an immutable type (basic, string, reflect.Type) or is a never-executed escape sink, and is written only by its initialiser (R1); the library starts no goroutines and uses no channels, sync or atomic (R2); it calls no standard-library function with process-global mutable state (R3); a world never adopts caller-owned slices as its own storage (R4). A fixture with known-bad examples is analysed on every run.",
+		ID:          "C19",
+		Decides:     "all state hangs off World: every package-level variable of the six packages has an immutable type (basic, string, reflect.Type) or is a never-executed escape sink, and is written only by its initialiser (R1); the library starts no goroutines and uses no channels, sync or atomic (R2); it calls no standard-library function with process-global mutable state (R3); a world never adopts caller-owned slices as its own storage (R4). A fixture with known-bad examples is analysed on every run.",
 		NotDecided:  "data races themselves (no schedule is explored); isolation when callers share Listener/Filter/component pointers between worlds (their responsibility).",
 		Assumptions: append([]string{"package reflect is safe for concurrent use", "callers do not share listeners, filters or component pointers between worlds"}, commonAssumptions...),
 		Rules: []Rule{
@@ -83,71 +83,173 @@ func scanMapRanges(fn *ssa.Function, modOf func(ssa.CallInstruction) bool) (bad 
 				}
 			}
 			body[head] = true
-			why := ""
-			var appended []ssa.Value
-			for x := range body {
-				for _, i2 := range x.Instrs {
-					switch y := i2.(type) {
-					case *ssa.Store:
-						if a, ok := y.Addr.(*ssa.Alloc); ok && !a.Heap {
-							continue // local accumulation
-						}
-						if _, isAlloc := y.Addr.(*ssa.Alloc); !isAlloc {
-							if _, _, fresh, ok := addrPath(y.Addr, 0); ok && fresh {
-								continue // element of a local temporary (e.g. the varargs array of append)
-							}
-						}
-						if _, ok := y.Addr.(*ssa.Alloc); ok {
-							// heap local (escaping variable): accept commutative updates only
-							if bo, ok := y.Val.(*ssa.BinOp); ok && (bo.Op == token.ADD || bo.Op == token.OR || bo.Op == token.AND || bo.Op == token.XOR || bo.Op == token.MUL) {
-								continue
-							}
-							if c := callOf(y.Val); c != nil {
-								if bi, ok := c.Call.Value.(*ssa.Builtin); ok && bi.Name() == "append" {
-									appended = append(appended, y.Addr)
-									continue
-								}
-							}
-						}
-						why = "stores to " + apath(y.Addr) + " inside the loop"
-					case *ssa.MapUpdate:
-						// keyed write: fine
-					case *ssa.Call:
-						if bi, ok := y.Call.Value.(*ssa.Builtin); ok {
-							switch bi.Name() {
-							case "delete", "len", "cap":
-								continue
-							case "append":
-								// result must go to a local that is sorted later; tracked through the Store/Phi
-								appended = append(appended, y)
-								continue
-							}
-							why = "calls builtin " + bi.Name()
-							continue
-						}
-						if modOf != nil && !modOf(y) {
-							continue // pure callee
-						}
-						why = "calls " + calleeShort(y) + ", which has side effects, once per map entry"
-					case *ssa.Send, *ssa.Go, *ssa.Defer:
-						why = "has an ordered side effect"
-					}
-				}
-			}
-			if why == "" && len(appended) > 0 {
-				// collect-then-sort: some call into package sort / slices.Sort after the loop in this function
-				sorted := false
-				for _, site := range callsIn(fn) {
-					if sc := site.Common().StaticCallee(); sc != nil && sc.Pkg != nil && (sc.Pkg.Pkg.Path() == "sort" || sc.Pkg.Pkg.Path() == "slices") && !body[site.Block()] {
-						sorted = true
-					}
-				}
-				if !sorted {
-					why = "appends to a slice in map order and never sorts it"
-				}
-			}
+			why := orderSensitive(fn, body, modOf)
 			if why != "" {
 				bad = append(bad, finding{fn, rg.Pos(), "range over " + apath(rg.X), "the loop body is order-sensitive: it " + why})
+			}
+		}
+	}
+	return
+}
+
+// orderSensitive: why the given blocks of fn (a loop body, or a whole callback run once per map entry) depend on the
+// order in which they are executed; "" if they do not, by form.
+func orderSensitive(fn *ssa.Function, body map[*ssa.BasicBlock]bool, modOf func(ssa.CallInstruction) bool) string {
+	why := ""
+	var appended []ssa.Value
+	for x := range body {
+		for _, i2 := range x.Instrs {
+			switch y := i2.(type) {
+			case *ssa.Store:
+				if a, ok := y.Addr.(*ssa.Alloc); ok && !a.Heap {
+					continue // local accumulation
+				}
+				if _, isAlloc := y.Addr.(*ssa.Alloc); !isAlloc {
+					if _, _, fresh, ok := addrPath(y.Addr, 0); ok && fresh {
+						continue // element of a local temporary (e.g. the varargs array of append)
+					}
+				}
+				if _, ok := y.Addr.(*ssa.Alloc); ok {
+					// heap local (escaping variable): accept commutative updates only
+					if bo, ok := y.Val.(*ssa.BinOp); ok && (bo.Op == token.ADD || bo.Op == token.OR || bo.Op == token.AND || bo.Op == token.XOR || bo.Op == token.MUL) {
+						continue
+					}
+					if c := callOf(y.Val); c != nil {
+						if bi, ok := c.Call.Value.(*ssa.Builtin); ok && bi.Name() == "append" {
+							appended = append(appended, y.Addr)
+							continue
+						}
+					}
+				}
+				why = "stores to " + apath(y.Addr) + " inside the loop"
+			case *ssa.MapUpdate:
+				// keyed write: fine
+			case *ssa.Call:
+				if bi, ok := y.Call.Value.(*ssa.Builtin); ok {
+					switch bi.Name() {
+					case "delete", "len", "cap":
+						continue
+					case "append":
+						// result must go to a local that is sorted later; tracked through the Store/Phi
+						appended = append(appended, y)
+						continue
+					}
+					why = "calls builtin " + bi.Name()
+					continue
+				}
+				if modOf != nil && !modOf(y) {
+					continue // pure callee
+				}
+				why = "calls " + calleeShort(y) + ", which has side effects, once per map entry"
+			case *ssa.Send, *ssa.Go, *ssa.Defer:
+				why = "has an ordered side effect"
+			}
+		}
+	}
+	if why == "" && len(appended) > 0 {
+		// collect-then-sort: some call into package sort / slices.Sort after the loop in this function
+		sorted := false
+		for _, site := range callsIn(fn) {
+			if sc := site.Common().StaticCallee(); sc != nil && sc.Pkg != nil && (sc.Pkg.Pkg.Path() == "sort" || sc.Pkg.Pkg.Path() == "slices") && !body[site.Block()] {
+				sorted = true
+			}
+		}
+		if !sorted {
+			why = "appends to a slice in map order and never sorts it"
+		}
+	}
+	return why
+}
+
+// pkgPathOf: import path of the package a (possibly instantiated) function was declared in.
+func pkgPathOf(fn *ssa.Function) string {
+	if fn == nil {
+		return ""
+	}
+	if o := fn.Origin(); o != nil {
+		fn = o
+	}
+	if fn.Pkg != nil {
+		return fn.Pkg.Pkg.Path()
+	}
+	if ob := fn.Object(); ob != nil && ob.Pkg() != nil {
+		return ob.Pkg().Path()
+	}
+	return ""
+}
+
+// scanMapsPkg: calls into the standard packages maps (and iter-based helpers) visit a map in hash order as well: a
+// callback run once per entry must be order-insensitive by the same criterion as a range body; an iterator over a map
+// (maps.Keys/Values/All) must be consumed by a sorting collector.
+func scanMapsPkg(fn *ssa.Function, modOf func(ssa.CallInstruction) bool) (bad []finding, n int) {
+	for _, site := range callsIn(fn) {
+		sc := site.Common().StaticCallee()
+		if sc == nil || pkgPathOf(sc) != "maps" {
+			continue
+		}
+		hasMap := false
+		for _, a := range site.Common().Args {
+			if isMapType(a.Type()) {
+				hasMap = true
+			}
+		}
+		if !hasMap {
+			continue
+		}
+		n++
+		name := sc.Name()
+		if o := sc.Origin(); o != nil {
+			name = o.Name()
+		}
+		switch name {
+		case "Keys", "Values", "All":
+			// an iterator in hash order: accepted only as the direct argument of slices.Sorted / SortedFunc / SortedStableFunc
+			sortedUse := true
+			v, isV := site.(ssa.Value)
+			if !isV || v.Referrers() == nil {
+				sortedUse = false
+			} else {
+				for _, ref := range *v.Referrers() {
+					c, ok := ref.(ssa.CallInstruction)
+					if !ok {
+						sortedUse = false
+						continue
+					}
+					cc := c.Common().StaticCallee()
+					cn := ""
+					if cc != nil {
+						cn = cc.Name()
+						if o := cc.Origin(); o != nil {
+							cn = o.Name()
+						}
+					}
+					if cc == nil || pkgPathOf(cc) != "slices" || !strings.HasPrefix(cn, "Sorted") {
+						sortedUse = false
+					}
+				}
+			}
+			if !sortedUse {
+				bad = append(bad, finding{fn, site.Pos(), "maps." + name, "iterates a map in hash order and the sequence is not handed directly to a sorting collector"})
+			}
+		case "Clone", "Copy", "Equal", "EqualFunc", "Insert", "Collect":
+			// keyed results: the order of visiting does not show
+		default:
+			// DeleteFunc and anything else taking a callback: the callback runs once per entry in hash order
+			for _, a := range site.Common().Args {
+				cf := closureFn(a)
+				if cf == nil {
+					if _, isFunc := a.Type().Underlying().(*types.Signature); isFunc {
+						bad = append(bad, finding{fn, site.Pos(), "maps." + name, "passes a function value that cannot be resolved to a map visitor in hash order"})
+					}
+					continue
+				}
+				all := map[*ssa.BasicBlock]bool{}
+				for _, b := range cf.Blocks {
+					all[b] = true
+				}
+				if why := orderSensitive(cf, all, modOf); why != "" {
+					bad = append(bad, finding{fn, site.Pos(), "maps." + name + " callback", "the callback runs once per map entry in hash order and is order-sensitive: it " + why})
+				}
 			}
 		}
 	}
@@ -271,7 +373,11 @@ func c13r1(p *Prog, r *Reporter) {
 	var bad []finding
 	n := 0
 	for _, fn := range p.Funcs {
-		b, k := scanMapRanges(fn, func(c ssa.CallInstruction) bool { return len(p.SiteMod(c).W) > 0 })
+		mod := func(c ssa.CallInstruction) bool { return len(p.SiteMod(c).W) > 0 }
+		b, k := scanMapRanges(fn, mod)
+		bad = append(bad, b...)
+		n += k
+		b, k = scanMapsPkg(fn, mod)
 		bad = append(bad, b...)
 		n += k
 	}
@@ -383,7 +489,9 @@ func c13fixture(p *Prog, r *Reporter) {
 		return false
 	}
 	for _, fn := range fp.funcs {
-		if b, _ := scanMapRanges(fn, impure); len(b) > 0 {
+		b, _ := scanMapRanges(fn, impure)
+		b2, _ := scanMapsPkg(fn, impure)
+		if b = append(b, b2...); len(b) > 0 {
 			f1[cname(fn)] = true
 			if os.Getenv("ARCHECHECK_DEBUG") != "" {
 				fmt.Fprintln(os.Stderr, "fixture R1:", cname(fn), b[0].why)
@@ -396,7 +504,7 @@ func c13fixture(p *Prog, r *Reporter) {
 			f3[cname(fn)] = true
 		}
 	}
-	fixtureCheck(r, "R1", f1, []string{"badRangeAppend", "badRangeCall"}, fp)
+	fixtureCheck(r, "R1", f1, []string{"badRangeAppend", "badRangeCall", "badMapsDeleteFunc"}, fp)
 	fixtureCheck(r, "R2", f2, []string{"badClock", "badRandom", "badGo", "badChan"}, fp)
 	fixtureCheck(r, "R3", f3, []string{"badAddrOrder", "badPrintPointer"}, fp)
 }
